@@ -31,6 +31,7 @@ CONSTANTS
  Aead = TRUE
  CheckIdent = FALSE
  RelayOnce = TRUE
+ CandsGuard = TRUE
  SuspendJoin = FALSE
  JoinCacheFirst = TRUE
  AutoTimers = TRUE
